@@ -10,6 +10,18 @@ Require Import Board Move GameOver PtnMove Playtak Tps TeiBudget Tei.
 Import ListNotations.
 Open Scope N_scope.
 
+(* ---- which command a line is ---- *)
+Inductive cmd := CEmpty | CTei | CQuit | CNew (args : list (list N)) | CPos (args : list (list N)) | CGo (args : list (list N)) | CStop | CReady | CUnknown.
+Definition classify (line : list N) : cmd :=
+  match fields line with
+  | [] => CEmpty
+  | w0 :: args =>
+    if bytes_eqb w0 s_tei then CTei else if bytes_eqb w0 s_quit then CQuit
+    else if bytes_eqb w0 s_teinewgame then CNew args else if bytes_eqb w0 s_position then CPos args
+    else if bytes_eqb w0 s_go then CGo args else if bytes_eqb w0 s_stop then CStop
+    else if bytes_eqb w0 s_isready then CReady else CUnknown
+  end.
+
 Section S.
 Variable basis : list N.
 
